@@ -532,6 +532,25 @@ def E(name, /, transform=False, fn=None, extra=None, first='model', consume=0, d
 T = dict(transform=True)
 
 
+def estimates_well_inside_bounds(m):
+    """the sampling functions use unbounded rejection sampling: only models whose initial estimates (used as
+    synthetic estimates) lie well inside their bounds are sampled"""
+    for p in m.parameters:
+        init, lo, up = float(p.init), float(p.lower), float(p.upper)
+        sd = 0.05 * abs(init) + 1e-3
+        if p.fix:
+            continue
+        if not (init - lo >= 2 * sd and up - init >= 2 * sd):
+            return 'estimate close to or outside a bound (rejection sampling may not terminate)'
+    if len(m.parameters) > 25:
+        return 'more than 25 parameters'
+    return None
+
+
+def sampling_domain(m):
+    return estimates_well_inside_bounds(m) or small_linear_odes(m)
+
+
 def small_linear_odes(m):
     """sympy's dsolve / eigenvalue routines do not terminate in reasonable time on non-linear or large systems:
     those calls are outside the bounded domain (stated in the evidence)"""
@@ -657,9 +676,28 @@ E('remove_covariate_effect', **T, parameter=ipar, covariate=cov)
 E('has_covariate_effect', parameter=ipar, covariate=cov)
 E('get_covariate_effects')
 
+def _occ_col(c):
+    """a column with 2..4 distinct values (add_iov creates one eta per category and parameter)"""
+
+    def f():
+        df = c.m.dataset
+        out = []
+        if df is not None:
+            for x in c.cols:
+                try:
+                    n = df[x].nunique()
+                except Exception:
+                    continue
+                if 2 <= n <= 4:
+                    out.append(x)
+        return out
+
+    return c.pick(c._get('occ', f), fallback='OCC')
+
+
 # ---- random effects --------------------------------------------------------------------------------------
 E('add_iiv', **T, list_of_parameters=str_or_list(ipars_(2)), expression=lit('exp', 'add', 'prop', 'log', 're_log'), operation=lit('*', '+'), initial_estimate=num(0.09, 0.3))
-E('add_iov', **T, occ=lambda c: c.pick([x for x in c.cols if x in ('OCC', 'VISI', 'FA1', 'APGR', 'SEX', 'DVID')] + c.cols[-2:]), list_of_parameters=opt(str_or_list(ipars_(2)), 2), eta_names=const(None))
+E('add_iov', **T, occ=_occ_col, list_of_parameters=opt(str_or_list(ipars_(2)), 2), eta_names=const(None))
 E('add_pk_iiv', **T, initial_estimate=num(0.09, 0.2))
 E('add_pd_iiv', **T, initial_estimate=num(0.09, 0.2))
 E('remove_iiv', **T, to_remove=opt(str_or_list(lambda c: c.some(c.etas + c.ipars, 2)), 3))
@@ -762,13 +800,13 @@ E('evaluate_expression', expression=expr_str, parameter_estimates=PMAP)
 # ---- results based ------------------------------------------------------------------------------------------------------
 E('calculate_eta_shrinkage', parameter_estimates=s_pe, individual_estimates=s_ie)
 E('calculate_individual_shrinkage', parameter_estimates=s_pe, individual_estimates_covariance=s_iec)
-E('calculate_individual_parameter_statistics', expr_or_exprs=lambda c: c.pick([c.pick(c.ipars), expr_str(c), [c.pick(c.ipars)]]), parameter_estimates=s_pe, covariance_matrix=opt(s_cov, 2), seed=const(1234))
-E('calculate_pk_parameters_statistics', domain=small_linear_odes, parameter_estimates=s_pe, covariance_matrix=opt(s_cov, 2), seed=const(1234))
+E('calculate_individual_parameter_statistics', domain=estimates_well_inside_bounds, expr_or_exprs=lambda c: c.pick([c.pick(c.ipars), expr_str(c), [c.pick(c.ipars)]]), parameter_estimates=s_pe, covariance_matrix=opt(s_cov, 2), seed=const(1234))
+E('calculate_pk_parameters_statistics', domain=sampling_domain, parameter_estimates=s_pe, covariance_matrix=opt(s_cov, 2), seed=const(1234))
 E('check_high_correlations', cor=s_cor, limit=num(0.9, 0.1))
 E('check_parameters_near_bounds', values=s_pe)
 E('sample_individual_estimates', individual_estimates=s_ie, individual_estimates_covariance=s_iec, parameters=opt(etas_(2), 2), samples_per_id=num(2, 5), seed=const(1234))
-E('sample_parameters_from_covariance_matrix', parameter_estimates=s_pe, covariance_matrix=s_cov, force_posdef_samples=opt(num(0, 3), 2), n=num(1, 3), seed=const(1234))
-E('sample_parameters_uniformly', parameter_estimates=s_pe, fraction=num(0.1, 0.5), force_posdef_samples=opt(num(0, 3), 2), n=num(1, 3), seed=const(1234))
+E('sample_parameters_from_covariance_matrix', domain=estimates_well_inside_bounds, parameter_estimates=s_pe, covariance_matrix=s_cov, force_posdef_samples=opt(num(0, 3), 2), n=num(1, 3), seed=const(1234))
+E('sample_parameters_uniformly', domain=estimates_well_inside_bounds, parameter_estimates=s_pe, fraction=num(0.1, 0.5), force_posdef_samples=opt(num(0, 3), 2), n=num(1, 3), seed=const(1234))
 E('transform_blq', **T, lloq=opt(num(0.5, 10.0, 20.0), 2))
 
 
@@ -905,6 +943,8 @@ EXCLUDED = {
     'tools.common.create_plots': 'plot function',
     # restricted domains of table entries
     'solve_ode_system / has_linear_odes_with_real_eigenvalues / calculate_pk_parameters_statistics [non-linear or >3 compartments]': 'sympy dsolve / eigenvalue routines do not terminate in reasonable time; only linear systems with <= 3 compartments are called',
+    'sample_parameters_* / calculate_*_parameter(s)_statistics [estimates within 2 sd of a bound, > 25 parameters]': 'unbounded rejection sampling',
+    'add_iov [occasion column with > 4 categories]': 'one eta per category and parameter: models of unbounded size',
     'get_unit_of [model variables]': 'sympy.solve over the unit equations may not terminate; only data columns are asked for',
 }
 
